@@ -12,10 +12,11 @@
     `WF b`              the bit array has `ceil(size/8)` bytes and `size > 0` (true of every constructed filter)
     `bfold pos b ops`   the filter after a list of filter ops (`mark`, `query`, `hyd`, `reset`, `fill`)
     `sinceReset ops`    the ids marked or hydrated since the last `reset` in `ops`
-    `cleansUp op id`    the op is a retention cleanup that deletes `id` from processed_messages
-    `blindSpot op id`   the op is `handle id commitRaise` or `peerMarks id` — the two ways the store can learn a mark
-                        the in-memory filter does not see
-    `SyncedFor pos s id` the filter is well-formed and, if authoritative, tests positive for `id` whenever `id` is processed
+    `spares s op id`    the op does not delete the processed record of `id` in state `s`: a purge that does not name it,
+                        or a retention sweep while the record is not older than the sweep's max age
+    `Spared pos c s id ops`   `spares` holds for every op of `ops`, each evaluated in the state it meets
+    `Committed pos c s id`    `id` is in processed_messages, the filter is well-formed, and — only when
+                        `dedup_trust_negative_cache` is on — an authoritative filter tests positive for `id`
 -/
 import Stab.Model.Dedup
 import Stab.Lemmas.C09
@@ -94,145 +95,169 @@ theorem hydrate_grants_authority_only_when_complete (pos : Id → List Nat) (cap
     · intro _; omega
     · intro _; rfl
 
-/-! ### the processor
-
-  `Committed pos c s id` (Lemmas/C09): `id` is in processed_messages, the filter is well-formed, and — only when
-  `dedup_trust_negative_cache` is on — an authoritative filter tests positive for `id`.
--/
+/-! ### the processor -/
 
 /-- **Once committed, never dispatched again** (the inductive core). From ANY state in which `id` is committed,
     through ANY sequence of deliveries of any messages with any handler outcome, restarts, rotations (forced, by
-    fill, by age), peer marks and retention sweeps that do not delete `id` itself, with the option off or on:
-    the handler is never invoked for `id` again, and `id` stays committed. -/
+    fill, by age), peer marks, passing time, purges and retention sweeps that spare the record of `id`, with the
+    option off or on: the handler is never invoked for `id` again, and `id` stays committed. -/
 theorem committed_stays (pos : Id → List Nat) (c : Cfg) (hsz : 0 < c.size) (s : State) (id : Id) (ops : List Op)
-    (h : Committed pos c s id) (hc : ∀ op ∈ ops, cleansUp op id = false) :
+    (h : Committed pos c s id) (hc : Spared pos c s id ops) :
     runCount (run pos c s ops) id = runCount s id ∧ Committed pos c (run pos c s ops) id := by
   induction ops generalizing s with
   | nil => exact ⟨rfl, h⟩
   | cons op ops ih =>
-    obtain ⟨h1, h2⟩ := step_keeps pos c hsz s op id h (hc op (List.mem_cons_self ..))
-    obtain ⟨h3, h4⟩ := ih (step pos c s op).1 h2 (fun o ho => hc o (List.mem_cons_of_mem _ ho))
+    obtain ⟨h1, h2⟩ := step_keeps pos c hsz s op id h hc.1
+    obtain ⟨h3, h4⟩ := ih (step pos c s op).1 h2 hc.2
     exact ⟨by simp only [run]; rw [h3, h1], h4⟩
 
-/-- **Trust off (the default): unconditional.** After ANY history `ops1`, a delivery of `id` whose handling
-    committed the processed mark — in the handler's own commit (`commitReturn`, `commitRaise`: even when the
-    handler raises afterwards) or through the processor's mark (`plainReturn`) — is never followed by another
-    handler invocation for `id`, whatever happens later (`ops2`: redeliveries at any point, restarts, rotations,
-    other workers' marks), short of a retention sweep deleting the record. -/
-theorem committed_never_rerun (pos : Id → List Nat) (c : Cfg) (hsz : 0 < c.size) (ht : c.trust = false)
-    (ops1 : List Op) (id : Id) (o : Outcome) (aged : Bool) (ho : o ≠ .raiseBefore) (ops2 : List Op)
-    (hc : ∀ op ∈ ops2, cleansUp op id = false) :
-    let s1 := (step pos c (run pos c (init c) ops1) (.handle id o aged)).1
-    runCount (run pos c s1 ops2) id = runCount s1 id := by
-  intro s1
-  have hw0 : WF (init c).bloom := wf_fresh c.size hsz
-  have hw1 : WF (run pos c (init c) ops1).bloom := wf_run pos c hsz _ ops1 hw0
-  have hcom : Committed pos c s1 id :=
-    ⟨handled_is_committed pos c _ id o aged ho, wf_step pos c hsz _ _ hw1, fun h => by rw [ht] at h; cases h⟩
-  exact (committed_stays pos c hsz s1 id ops2 hcom hc).1
+/-- what a delivery that committed (or was skipped because the record exists) establishes -/
+theorem delivery_commits (pos : Id → List Nat) (c : Cfg) (hsz : 0 < c.size) (hmark : c.trust = true → c.markOnRaise = true)
+    (s : State) (hw : WF s.bloom) (id : Id) (o : Outcome) (aged : Bool) (ho : o ≠ .raiseBefore) :
+    Committed pos c (step pos c s (.handle id o aged)).1 id := by
+  refine ⟨handled_is_committed pos c s id o aged ho, wf_step pos c hsz _ _ hw, ?_⟩
+  intro ht ha
+  have hfix := hmark ht
+  rw [step_handle] at ha ⊢
+  have hwa : WF (ageState s aged).bloom := age_wf _ aged hw
+  cases hk : skips pos c (ageState s aged) id with
+  | true =>
+    -- skipped: the state is unchanged, and an authoritative trusted filter only skips on a positive
+    rw [handleMsg_skip pos c _ id o hk] at ha ⊢
+    unfold skips consultsStore at hk
+    simp only [Bool.and_eq_true, Bool.or_eq_true] at hk
+    rcases hk.1 with h | h
+    · exact h
+    · simp_all
+  | false =>
+    rw [handleMsg_run pos c _ id o hk]
+    have hwr := wf_afterRotationCheck pos c _ hwa
+    cases o with
+    | raiseBefore => exact absurd rfl ho
+    | commitRaise => simp only [onRaise, hfix, if_true]; exact mark_then_seen pos _ id hwr
+    | commitReturn => exact mark_then_seen pos _ id hwr
+    | plainReturn => exact mark_then_seen pos _ id hwr
 
-/-- the same for a record written by another worker: with the option off, a message another worker marked
+/-- **A committed message is never handled again** — the code as it is, option off (default) or on.
+    After ANY history `ops1`, a delivery of `id` whose handling committed the processed record — in the handler's
+    own commit (`commitReturn`, `commitRaise`: even when the handler raises afterwards) or through the processor's
+    mark (`plainReturn`) — is never followed by another handler invocation for `id`, whatever happens later
+    (`ops2`: redeliveries at any point, restarts, rotations, other workers' marks, retention sweeps), as long as
+    the record itself is spared: no purge names it and it is not older than max_age when a sweep runs.
+    (`hmark`: with the option on this needs the F7 repair, which is in the code: `markOnRaise = true`.) -/
+theorem committed_never_rerun (pos : Id → List Nat) (c : Cfg) (hsz : 0 < c.size) (hmark : c.trust = true → c.markOnRaise = true)
+    (ops1 : List Op) (id : Id) (o : Outcome) (aged : Bool) (ho : o ≠ .raiseBefore) (ops2 : List Op) :
+    let s1 := (step pos c (run pos c (init c) ops1) (.handle id o aged)).1
+    Spared pos c s1 id ops2 → runCount (run pos c s1 ops2) id = runCount s1 id := by
+  intro s1 hc
+  have hw1 : WF (run pos c (init c) ops1).bloom := wf_run pos c hsz _ ops1 (wf_fresh c.size hsz)
+  exact (committed_stays pos c hsz s1 id ops2 (delivery_commits pos c hsz hmark _ hw1 id o aged ho) hc).1
+
+/-- the same for a record written by another worker, with the option off: a message another worker marked
     processed is never handled here -/
 theorem peer_mark_respected (pos : Id → List Nat) (c : Cfg) (hsz : 0 < c.size) (ht : c.trust = false)
-    (ops1 : List Op) (id : Id) (ops2 : List Op) (hc : ∀ op ∈ ops2, cleansUp op id = false) :
+    (ops1 : List Op) (id : Id) (ops2 : List Op) :
     let s1 := (step pos c (run pos c (init c) ops1) (.peerMarks id)).1
-    runCount (run pos c s1 ops2) id = runCount s1 id := by
-  intro s1
+    Spared pos c s1 id ops2 → runCount (run pos c s1 ops2) id = runCount s1 id := by
+  intro s1 hc
   have hw1 : WF (run pos c (init c) ops1).bloom := wf_run pos c hsz _ ops1 (wf_fresh c.size hsz)
   have hcom : Committed pos c s1 id :=
     ⟨by simp [s1, step, mem_storeAdd], wf_step pos c hsz _ _ hw1, fun h => by rw [ht] at h; cases h⟩
   exact (committed_stays pos c hsz s1 id ops2 hcom hc).1
 
-/-- **Trust on: under what the option documents** ("this process is the store's only writer", i.e. the
-    filter saw the mark). If the delivery that committed `id` RETURNED (`commitReturn` / `plainReturn`: the
-    processor then marks the filter), no later delivery of `id` runs the handler — again for every later history,
-    including other messages' handlers raising after their commit and peers marking other or the same ids. -/
-theorem committed_never_rerun_trusting (pos : Id → List Nat) (c : Cfg) (hsz : 0 < c.size)
-    (ops1 : List Op) (id : Id) (o : Outcome) (aged : Bool) (ho : o = .commitReturn ∨ o = .plainReturn) (ops2 : List Op)
-    (hc : ∀ op ∈ ops2, cleansUp op id = false) :
-    let s1 := (step pos c (run pos c (init c) ops1) (.handle id o aged)).1
-    runCount (run pos c s1 ops2) id = runCount s1 id := by
-  intro s1
-  have hw1 : WF (run pos c (init c) ops1).bloom := wf_run pos c hsz _ ops1 (wf_fresh c.size hsz)
-  have hne : o ≠ .raiseBefore := by rcases ho with h | h <;> (subst h; intro hh; cases hh)
-  have hcom : Committed pos c s1 id := by
-    refine ⟨handled_is_committed pos c _ id o aged hne, wf_step pos c hsz _ _ hw1, ?_⟩
-    intro _ ha
-    have hs1 : s1 = (handleMsg pos c (ageState (run pos c (init c) ops1) aged) id o).1 := rfl
-    have hwa : WF (ageState (run pos c (init c) ops1) aged).bloom := age_wf _ aged hw1
-    cases hk : skips pos c (ageState (run pos c (init c) ops1) aged) id with
-    | true =>
-      -- skipped: the state is unchanged, and an authoritative trusted filter only skips on a positive
-      rw [hs1, handleMsg_skip pos c _ id o hk] at ha ⊢
-      unfold skips consultsStore at hk
-      simp only [Bool.and_eq_true, Bool.or_eq_true] at hk
-      rcases hk.1 with h | h
-      · exact h
-      · simp_all
-    | false =>
-      rw [hs1, handleMsg_run pos c _ id o hk]
-      rcases ho with h | h <;> subst h <;>
-        exact mark_then_seen pos _ id (wf_afterRotationCheck pos c _ hwa)
-  exact (committed_stays pos c hsz s1 id ops2 hcom hc).1
+/-! ### the retention sweep (repair of F32: timestamps are compared as datetimes) -/
 
-/-- **Trust on, with proposed_fixes/F7.diff** (`markOnRaise`: `_handle_message` marks the filter when the handler
-    raises). Then the guarantee also covers a handler that committed and raised: every outcome that committed the
-    record is covered, as with the option off. Only a peer's mark stays outside (the option's documented contract). -/
-theorem committed_never_rerun_trusting_fixed (pos : Id → List Nat) (c : Cfg) (hsz : 0 < c.size) (hfix : c.markOnRaise = true)
-    (ops1 : List Op) (id : Id) (o : Outcome) (aged : Bool) (ho : o ≠ .raiseBefore) (ops2 : List Op)
-    (hc : ∀ op ∈ ops2, cleansUp op id = false) :
-    let s1 := (step pos c (run pos c (init c) ops1) (.handle id o aged)).1
-    runCount (run pos c s1 ops2) id = runCount s1 id := by
-  intro s1
-  have hw1 : WF (run pos c (init c) ops1).bloom := wf_run pos c hsz _ ops1 (wf_fresh c.size hsz)
-  have hcom : Committed pos c s1 id := by
-    refine ⟨handled_is_committed pos c _ id o aged ho, wf_step pos c hsz _ _ hw1, ?_⟩
-    intro _ ha
-    have hs1 : s1 = (handleMsg pos c (ageState (run pos c (init c) ops1) aged) id o).1 := rfl
-    have hwa : WF (ageState (run pos c (init c) ops1) aged).bloom := age_wf _ aged hw1
-    cases hk : skips pos c (ageState (run pos c (init c) ops1) aged) id with
-    | true =>
-      rw [hs1, handleMsg_skip pos c _ id o hk] at ha ⊢
-      unfold skips consultsStore at hk
-      simp only [Bool.and_eq_true, Bool.or_eq_true] at hk
-      rcases hk.1 with h | h
-      · exact h
-      · simp_all
+/-- the sweep deletes ONLY records strictly older than its max age -/
+theorem sweep_deletes_only_old (pos : Id → List Nat) (c : Cfg) (s : State) (maxAge : Nat) (id : Id)
+    (hm : id ∈ s.store) (hgone : id ∉ (step pos c s (.sweep maxAge)).1.store) :
+    ∃ t, s.stamp.lookup id = some t ∧ t + maxAge < s.clock := by
+  simp only [step, List.mem_filter, hm, true_and] at hgone
+  have hexp : expired s maxAge id = true := by
+    cases h : expired s maxAge id with
+    | true => rfl
+    | false => simp [h] at hgone
+  unfold expired at hexp
+  cases hl : s.stamp.lookup id with
+  | none => simp [hl] at hexp
+  | some t => exact ⟨t, rfl, by simpa [hl] using hexp⟩
+
+/-- a record that is not older than max age is spared by the sweep -/
+theorem sweep_spares_young (s : State) (maxAge : Nat) (id : Id) (t : Nat)
+    (hl : s.stamp.lookup id = some t) (hy : s.clock ≤ t + maxAge) : spares s (.sweep maxAge) id = true := by
+  have : ¬ t + maxAge < s.clock := by omega
+  simp [spares, expired, hl, this]
+
+/-- a record keeps its timestamp while it exists: other messages' records, re-marks (INSERT OR IGNORE), restarts and
+    rotations do not touch it — so "older than max_age" is measured from the commit -/
+theorem stamp_stable (pos : Id → List Nat) (c : Cfg) (s : State) (op : Op) (id : Id) (hm : id ∈ s.store) :
+    (step pos c s op).1.stamp.lookup id = s.stamp.lookup id := by
+  have hc : s.store.contains id = true := by simpa using hm
+  have hadd : ∀ i, (stampAdd s i).lookup id = s.stamp.lookup id := by
+    intro i
+    unfold stampAdd
+    by_cases hi : s.store.contains i = true
+    · rw [if_pos hi]
+    · rw [if_neg hi]
+      have hne : (id == i) = false := by
+        cases h : (id == i) with
+        | false => rfl
+        | true => have : id = i := by simpa using h
+                  subst this; exact absurd hc hi
+      simp only [List.lookup_cons, hne]
+  cases op with
+  | handle i o aged =>
+    rw [step_handle]
+    have hst : (ageState s aged).stamp = s.stamp := by unfold ageState; split <;> rfl
+    have hstore : (ageState s aged).store = s.store := age_store s aged
+    have hclock : (ageState s aged).clock = s.clock := by unfold ageState; split <;> rfl
+    have hadd' : (stampAdd (ageState s aged) i).lookup id = s.stamp.lookup id := by
+      have := hadd i
+      unfold stampAdd at this ⊢
+      rw [hstore, hst, hclock]; exact this
+    cases hk : skips pos c (ageState s aged) i with
+    | true => rw [handleMsg_skip pos c _ i o hk, hst]
     | false =>
-      rw [hs1, handleMsg_run pos c _ id o hk]
-      have hwr := wf_afterRotationCheck pos c _ hwa
+      rw [handleMsg_run pos c _ i o hk]
       cases o with
-      | raiseBefore => exact absurd rfl ho
-      | commitRaise => simp only [onRaise, hfix, if_true]; exact mark_then_seen pos _ id hwr
-      | commitReturn => exact mark_then_seen pos _ id hwr
-      | plainReturn => exact mark_then_seen pos _ id hwr
-  exact (committed_stays pos c hsz s1 id ops2 hcom hc).1
+      | raiseBefore => exact congrArg (fun l => List.lookup id l) hst
+      | commitRaise => exact hadd'
+      | commitReturn => exact hadd'
+      | plainReturn => exact hadd'
+  | restart => rfl
+  | rotate => rfl
+  | peerMarks i => exact hadd i
+  | cleanup ids => rfl
+  | tick n => rfl
+  | sweep h => rfl
 
-/-! ### counterexamples: where the statement is false of the model (= of the code) -/
+/-! ### where the statement stops -/
 
 /-- the concrete setting of the witnesses: 64 bits, capacity 10, each id has one hash position -/
 def wpos : Id → List Nat := fun i => [i]
 
-/-- **F7 (within ONE process).** Option on, filter hydrated (authoritative): the handler commits its effects
-    and the processed mark, then raises; the message is redelivered and the handler RUNS AGAIN although the
-    mark is durable — the processor marks the filter only after the handler returns. -/
-theorem commit_then_raise_reruns_when_trusting :
-    let c : Cfg := { size := 64, cap := 10, trust := true }
-    let s1 := run wpos c (init c) [.restart, .handle 1 .commitRaise false]
-    (1 ∈ s1.store) ∧ runCount s1 1 = 1 ∧ runCount (run wpos c s1 [.handle 1 .commitReturn false]) 1 = 2 := by
-  decide
-
-/-- option on: a mark written by another worker is not seen (outside the option's documented contract) -/
+/-- option on: a mark written by ANOTHER worker is not seen by this process's filter — outside the option's
+    documented contract ("only safe when this process is the only writer"), recorded as an assumption -/
 theorem peer_mark_reruns_when_trusting :
     let c : Cfg := { size := 64, cap := 10, trust := true }
     let s1 := run wpos c (init c) [.restart, .peerMarks 1]
     (1 ∈ s1.store) ∧ runCount (run wpos c s1 [.handle 1 .commitReturn false]) 1 = 1 := by
   decide
 
-/-- the retention sweep is a real exception (either setting): deleting the record re-opens the message -/
-theorem cleanup_reopens :
+/-- the `Spared` hypothesis is needed: once the record is older than max_age a sweep deletes it and the message
+    is open again (the operator's documented trade-off) -/
+theorem sweep_of_old_record_reopens :
     let c : Cfg := { size := 64, cap := 10, trust := false }
-    runCount (run wpos c (init c) [.restart, .handle 1 .commitReturn false, .cleanup [1], .handle 1 .commitReturn false]) 1 = 2 := by
+    runCount (run wpos c (init c) [.restart, .handle 1 .commitReturn false, .tick 5, .sweep 4, .handle 1 .commitReturn false]) 1 = 2
+    ∧ runCount (run wpos c (init c) [.restart, .handle 1 .commitReturn false, .tick 4, .sweep 4, .handle 1 .commitReturn false]) 1 = 1 := by
+  decide
+
+/-- LEGACY (before the repair of F7, `markOnRaise = false`; not the code any more): option on, filter hydrated —
+    the handler committed its effects and the processed mark, then raised; the message was redelivered and the
+    handler RAN AGAIN although the mark was durable. -/
+theorem legacy_commit_then_raise_reran_when_trusting :
+    let c : Cfg := { size := 64, cap := 10, trust := true, markOnRaise := false }
+    let s1 := run wpos c (init c) [.restart, .handle 1 .commitRaise false]
+    (1 ∈ s1.store) ∧ runCount s1 1 = 1 ∧ runCount (run wpos c s1 [.handle 1 .commitReturn false]) 1 = 2 := by
   decide
 
 /-! ### which handler commits carry the processed mark (generated from the handlers' source) -/
@@ -248,18 +273,16 @@ open Stab.Gen.TxnShapes Stab.TxnShapes in
     For the listed ones the record is written by the processor after the handler returns; a crash in between
     re-runs the handler on redelivery (they rely on their own status guards):
       complete_stage 6,7,9,10   synthetic-stage / failure propagation paths of CompleteStage
-      run_task/error 1, result._handle_running   transient retry / polling re-push (finding F12)
       start_stage on_stage 1, do_mark_error   wait-retry and planning-error paths
-      start_stage _start_if_ready 5   the claim commit, first of StartStage's two commits (finding F18)
-      start_waiting_workflows 0 -/
+      start_stage _start_if_ready 5   the claim commit, first of StartStage's two commits
+      start_waiting_workflows 0
+    (the transient-retry and polling re-push of RunTask left this list with the repair of F12) -/
 theorem processed_mark_in_handler_commit :
     ((entries.filter (fun e => isCommit e && storesState e && !marks e)).map key) =
     [ ("handlers/complete_stage/handler.py", "CompleteStageHandler._handle_with_retry.on_stage", 6),
       ("handlers/complete_stage/handler.py", "CompleteStageHandler._handle_with_retry.on_stage", 7),
       ("handlers/complete_stage/handler.py", "CompleteStageHandler._handle_with_retry.on_stage", 9),
       ("handlers/complete_stage/handler.py", "CompleteStageHandler._handle_with_retry.on_stage", 10),
-      ("handlers/run_task/error.py", "_handle_transient_retry.do_update_context", 1),
-      ("handlers/run_task/result.py", "_handle_running", 0),
       ("handlers/start_stage/handler.py", "StartStageHandler.handle.on_stage", 1),
       ("handlers/start_stage/handler.py", "StartStageHandler.handle.on_stage.do_mark_error", 0),
       ("handlers/start_stage/handler.py", "StartStageHandler._start_if_ready", 5),
@@ -267,12 +290,12 @@ theorem processed_mark_in_handler_commit :
   decide
 
 open Stab.Gen.TxnShapes Stab.TxnShapes in
-/-- commits that only enqueue messages (no state, no mark): retry / re-poll pushes -/
+/-- commits that only enqueue messages (no state, no mark): `start_next`, and the transient retry when the stage
+    has vanished -/
 theorem push_only_commits :
     ((entries.filter (fun e => isCommit e && !storesState e && pushes e && !marks e)).map key) =
     [ ("handlers/base.py", "StabilizeHandler.start_next", 1),
-      ("handlers/run_task/error.py", "_handle_transient_retry.do_update_context", 0),
-      ("handlers/run_task/error.py", "_handle_transient_retry", 0) ] := by
+      ("handlers/run_task/error.py", "_handle_transient_retry.do_update_context", 0) ] := by
   decide
 
 open Stab.Gen.TxnShapes Stab.TxnShapes in
@@ -291,16 +314,22 @@ theorem pushes_outside_transactions :
       ("handlers/start_stage/handler.py", "StartStageHandler.handle.on_stage", 2),
       ("handlers/start_stage/handler.py", "StartStageHandler._start_if_ready", 2),
       ("handlers/start_stage/handler.py", "StartStageHandler._start_if_ready", 6),
+      ("handlers/start_stage/handler.py", "StartStageHandler._start_if_ready", 8),
       ("handlers/start_stage/orchestration.py", "StartStageOrchestrationMixin._cancel_deferred_choice_siblings", 0),
       ("handlers/start_workflow.py", "StartWorkflowHandler._handle_with_retry.on_execution", 0) ] := by
   decide
 
 /-! ### non-vacuity -/
 
--- a committed state exists and the hypotheses of the theorems are satisfiable
+-- a committed state exists and the hypotheses of the theorems are satisfiable (option on, the code as it is):
+-- one invocation although the handler raised after its commit and the message came back several times
 example : let c : Cfg := { size := 64, cap := 10, trust := true }
-    runCount (run wpos c (init c) [.restart, .handle 1 .commitReturn false, .handle 1 .commitReturn false,
-      .rotate, .handle 1 .plainReturn true, .restart, .handle 1 .commitRaise false]) 1 = 1 := by decide
+    runCount (run wpos c (init c) [.restart, .handle 1 .commitRaise false, .handle 1 .commitReturn false,
+      .rotate, .handle 1 .plainReturn true, .restart, .tick 3, .sweep 4, .handle 1 .commitRaise false]) 1 = 1 := by decide
+example : let c : Cfg := { size := 64, cap := 10, trust := true }
+    Spared wpos c (run wpos c (init c) [.restart, .handle 1 .commitRaise false]) 1
+      [.handle 1 .commitReturn false, .tick 3, .sweep 4, .cleanup [2], .handle 1 .commitRaise false] := by
+  decide
 -- a filter op sequence with a reset in the middle: only the later ids are claimed
 example : sinceReset [.mark 1, .hyd [2, 3], .reset, .mark 4] = [4] := by decide
 -- rotation with more processed ids than the capacity leaves the filter advisory
